@@ -400,6 +400,13 @@ def run(rep, tier, seed):
         bymod.setdefault(id(mt), (mt, []))[1].append(c)
     for mt, lst in bymod.values():
         run_contracts(rep, lst, mt, tier=tier, pid="C19", replayers=[(r"frame|dtype_store", _replay_search)])
+    # landscape tools: the operands handed to snap_pl / lc_approx are observably unchanged (fields and buffers), proved against a
+    # snap_pl contract that does not promise fresh objects
+    from contracts import c09_tools
+    for cs2, t2 in c09_tools.all_contracts(tier):
+        cs2 = [c for c in cs2 if c.qualname in ("snap_pl", "lc_approx") and c.variant in ("given=", "given=start,stop,num_steps")]
+        if cs2:
+            run_contracts(rep, cs2, t2, tier=tier, pid="C19", replayers=[(r"frame|dtype_store", _replay_search)])
     # keep only ownership / dtype clauses in this property's ledger
     keep = [o for o in rep.obligations if (".frame." in o["name"] or ".dtype_store." in o["name"] or o["name"].startswith("static:"))]
     dropped = len(rep.obligations) - len(keep)
